@@ -48,3 +48,48 @@ func HugRings(t *rapid.T, l string, c s2.Point, r float64) (RingsPolygon, bool) 
 	}
 	return RingsPolygon{Center: FromPt(c), Rings: [][]P{FromPts(shell), FromPts([]s2.Point{p, q, in})}}, true
 }
+
+// TouchRings draws a regular shell of 5..16 vertices (radius r about c) and a
+// triangular hole that shares exactly one vertex with it: shell vertex k (k = 0
+// in a third of the cases) and two points on the diagonals from that vertex to
+// its second neighbours, which are strictly inside the convex shell. The hole's
+// vertex order starts at a drawn position, so the shared vertex is its vertex
+// 0, 1 or 2.
+func TouchRings(t *rapid.T, l string, c s2.Point, r float64) (RingsPolygon, bool) {
+	x := c.Ortho()
+	y := c.Cross(x).Normalize()
+	n := rapid.SampledFrom([]int{5, 6, 8, 9, 10, 11, 12, 16}).Draw(t, l+".tn")
+	az0 := rapid.Float64Range(0, 2*math.Pi).Draw(t, l+".taz")
+	shell := make([]s2.Point, n)
+	for i := range shell {
+		az := az0 + float64(i)*2*math.Pi/float64(n)
+		dir := x.Mul(math.Cos(az)).Add(y.Mul(math.Sin(az)))
+		shell[i] = Fix(s2.Point{Vector: c.Mul(math.Cos(r)).Add(dir.Mul(math.Sin(r))).Normalize()}, c)
+	}
+	k := 0
+	if rapid.IntRange(0, 2).Draw(t, l+".tk0") != 0 {
+		k = rapid.IntRange(0, n-1).Draw(t, l+".tk")
+	}
+	f := rapid.Float64Range(0.1, 0.9).Draw(t, l+".tf")
+	v := shell[k]
+	a := Fix(s2.Interpolate(f, v, shell[(k+2)%n]), c)
+	b := Fix(s2.Interpolate(f, v, shell[(k+n-2)%n]), c)
+	tri := []s2.Point{v, a, b}
+	switch exact.Sign(v.Vector, a.Vector, b.Vector) {
+	case 0:
+		return RingsPolygon{}, false
+	case -1:
+		tri = []s2.Point{v, b, a}
+	}
+	// a, b strictly inside the shell: left of every shell edge
+	for i := range shell {
+		for _, p := range tri[1:] {
+			if exact.Sign(shell[i].Vector, shell[(i+1)%n].Vector, p.Vector) <= 0 {
+				return RingsPolygon{}, false
+			}
+		}
+	}
+	j := rapid.IntRange(0, 2).Draw(t, l+".tj")
+	tri = append(tri[3-j:], tri[:3-j]...)
+	return RingsPolygon{Center: FromPt(c), Rings: [][]P{FromPts(shell), FromPts(tri)}}, true
+}
